@@ -82,6 +82,12 @@ func (pc *PeerConn) Send(msg wire.Message) bool {
 	if _, err := wire.WriteMessageN(&buf, msg, wire.ProtocolVersion, simNet); err != nil {
 		panic(fmt.Sprintf("peer model: encode %s: %v", msg.Command(), err))
 	}
+	if hm, ok := msg.(*wire.MsgHeaders); ok && cap(hm.Headers) > len(hm.Headers)+8 {
+		// wire.NewMsgHeaders reserves room for 2000 headers (16 KB); the message is kept in the
+		// history of sent messages, and a node that polls for headers in a tight loop (it does
+		// while a requested block is outstanding) collects gigabytes of them in one run
+		hm.Headers = append(make([]*wire.BlockHeader, 0, len(hm.Headers)), hm.Headers...)
+	}
 	// bookkeeping and write are one step for the scheduler: with several model tasks sending on
 	// one connection (reader, pinger, scenario) the recorded offsets must be the order of the bytes
 	// on the stream
